@@ -1,12 +1,25 @@
 (* Engine 1: scripts of world operations over two worlds; decoder, interpreter and observation
    encoders.  The Rust harness (harness/src/world_engine.rs) implements the same protocol. *)
 From Coq Require Import List NArith ZArith Bool.
-From HecsV Require Import Base.ListN Model.EntityBits Model.Types Model.Entities Model.World Model.Query.
+From HecsV Require Import Base.ListN Model.EntityBits Model.Types Model.Entities Model.World Model.Query Model.Containers.
 Import ListNotations.
 Open Scope N_scope.
 
 Record wslot := { ws_world : world; ws_state : N }.   (* 0 live, 1 poisoned by a panic, 2 dropped *)
-Record est := { e_u : universe; e_ws : list wslot; e_handles : list entity; e_prep : list (N * prepared) }.
+(* container slots of the script interpreter *)
+Record conts := {
+  k_eb : list common;                 (* EntityBuilder slots *)
+  k_ebc : list common;                (* EntityBuilderClone slots *)
+  k_built : list (option common);     (* BuiltEntityClone slots *)
+  k_batch : list (option cbatch);     (* ColumnBatchBuilder slots *)
+  k_cmd : list cmdbuf;                (* CommandBuffer slots *)
+  k_next : N;                         (* serial of the most recent clone *)
+}.
+Definition conts_new : conts :=
+  {| k_eb := repeat common_new 4; k_ebc := repeat common_new 4; k_built := repeat None 4;
+     k_batch := repeat None 4; k_cmd := repeat cmdbuf_new 2; k_next := 1099511627776 |}.
+
+Record est := { e_u : universe; e_ws : list wslot; e_handles : list entity; e_prep : list (N * prepared); e_k : conts }.
 
 (* table entry recorded when an operation that should have produced a handle failed *)
 Definition NOHANDLE : entity := {| e_id := 200; e_gen := 4294967295 |}.
@@ -182,7 +195,7 @@ Definition run_query (st : est) (wi : N) (w : world) (qidx path arg : N) (q : qu
          (st, lenN bs :: concat (map (enc_entries u) bs))
   | 4 | 5 | 6 =>
       let p := pq_refresh (assoc_prep qidx (e_prep st)) (wi + 1) w q in
-      let st' := {| e_u := e_u st; e_ws := e_ws st; e_handles := e_handles st; e_prep := (qidx, p) :: e_prep st |} in
+      let st' := {| e_u := e_u st; e_ws := e_ws st; e_handles := e_handles st; e_prep := (qidx, p) :: e_prep st; e_k := e_k st |} in
       if N.eqb path 6 then (st', concat (map (fun h => enc_opt_item u (pq_view_get p w q h)) hs))
       else (st', pq_len p w :: enc_entries u (pq_iter p w q))
   | 7 => (st, concat (map (fun h => match query_one w q h with
@@ -200,10 +213,10 @@ Definition get_w (st : est) (i : N) : option world :=
   end.
 
 Definition set_w (st : est) (i : N) (w : world) (state : N) : est :=
-  {| e_u := e_u st; e_ws := updN (e_ws st) i {| ws_world := w; ws_state := state |}; e_handles := e_handles st; e_prep := e_prep st |}.
+  {| e_u := e_u st; e_ws := updN (e_ws st) i {| ws_world := w; ws_state := state |}; e_handles := e_handles st; e_prep := e_prep st; e_k := e_k st |}.
 
 Definition add_handles (st : est) (hs : list entity) : est :=
-  {| e_u := e_u st; e_ws := e_ws st; e_handles := e_handles st ++ hs; e_prep := e_prep st |}.
+  {| e_u := e_u st; e_ws := e_ws st; e_handles := e_handles st ++ hs; e_prep := e_prep st; e_k := e_k st |}.
 
 Definition out_ok (u : universe) (ret : list N) (dropped : list (tid * val)) : list N :=
   [0; lenN ret] ++ ret ++ enc_vals u dropped.
@@ -214,9 +227,235 @@ Definition out_panic (u : universe) (class : N) (dropped : list (tid * val)) : l
 
 Definition vals_flat (l : list (tid * val)) : list N := concat (map (fun p => [snd p]) l).
 
+(* ---- containers (opcodes 50..86) ---- *)
+Definition set_k (st : est) (k : conts) : est :=
+  {| e_u := e_u st; e_ws := e_ws st; e_handles := e_handles st; e_prep := e_prep st; e_k := k |}.
+Definition k_with_eb (k : conts) (l : list common) : conts :=
+  {| k_eb := l; k_ebc := k_ebc k; k_built := k_built k; k_batch := k_batch k; k_cmd := k_cmd k; k_next := k_next k |}.
+Definition k_with_ebc (k : conts) (l : list common) : conts :=
+  {| k_eb := k_eb k; k_ebc := l; k_built := k_built k; k_batch := k_batch k; k_cmd := k_cmd k; k_next := k_next k |}.
+Definition k_with_built (k : conts) (l : list (option common)) : conts :=
+  {| k_eb := k_eb k; k_ebc := k_ebc k; k_built := l; k_batch := k_batch k; k_cmd := k_cmd k; k_next := k_next k |}.
+Definition k_with_batch (k : conts) (l : list (option cbatch)) : conts :=
+  {| k_eb := k_eb k; k_ebc := k_ebc k; k_built := k_built k; k_batch := l; k_cmd := k_cmd k; k_next := k_next k |}.
+Definition k_with_cmd (k : conts) (l : list cmdbuf) : conts :=
+  {| k_eb := k_eb k; k_ebc := k_ebc k; k_built := k_built k; k_batch := k_batch k; k_cmd := l; k_next := k_next k |}.
+Definition k_with_next (k : conts) (n : N) : conts :=
+  {| k_eb := k_eb k; k_ebc := k_ebc k; k_built := k_built k; k_batch := k_batch k; k_cmd := k_cmd k; k_next := n |}.
+
+Definition nth_common (l : list common) (i : N) : common := match nthN l i with Some c => c | None => common_new end.
+Definition enc_events (ev : list aevent) : list N := [].   (* allocator events are compared by the layout engine *)
+
+Definition enc_builder_probe (u : universe) (c : common) : list N :=
+  concat (map (fun t => (if common_has c t then 1 else 0) ::
+                        match common_get c t with
+                        | Some (off, v) => [1; snd (zval u (t, v))]
+                        | None => [0]
+                        end) (seqN 0 (lenN u)))
+  ++ lenN (common_types c) :: common_types c.
+
+Definition spawn_count (c : cmdbuf) : N :=
+  lenN (filter (fun x => match x with CSpawnOrInsert None _ _ => true | _ => false end) (cm_cmds c)).
+
+Definition exec_cont (st : est) (opc : N) (l : list N) : est * list N * list N :=
+  let u := e_u st in
+  let k := e_k st in
+  match opc, l with
+  (* --- EntityBuilder --- *)
+  | 50, s :: t :: v :: rest =>
+      let '(c', d, _) := common_add u (nth_common (k_eb k) s) t v in
+      (set_k st (k_with_eb k (updN (k_eb k) s c')), rest, out_ok u [] d)
+  | 52, s :: rest =>
+      let '(c', d) := common_clear (nth_common (k_eb k) s) in
+      (set_k st (k_with_eb k (updN (k_eb k) s c')), rest, out_ok u [] d)
+  | 53, s :: wi :: rest =>
+      match get_w st wi with
+      | None => (add_handles st [NOHANDLE], rest, [8])
+      | Some w =>
+          let c := builder_build u (nth_common (k_eb k) s) in
+          let b := built_bundle c in
+          let st1 := set_k st (k_with_eb k (updN (k_eb k) s (builder_after_put c))) in
+          match w_spawn u w b with
+          | Done (w', h) => (add_handles (set_w st1 wi w' 0) [h], rest, out_ok u [enc_entity h] [])
+          | Panic p => (add_handles (set_w st1 wi w 1) [NOHANDLE], rest, out_panic u p (b_items b))
+          end
+      end
+  | 54, s :: wi :: r1 =>
+      let '(h, rest) := dec_href st r1 in
+      match get_w st wi with
+      | None => (st, rest, [8])
+      | Some w =>
+          let c := builder_build u (nth_common (k_eb k) s) in
+          let b := built_bundle c in
+          let st1 := set_k st (k_with_eb k (updN (k_eb k) s (builder_after_put c))) in
+          match w_insert u w h b with
+          | Done (w', WOk d) => (set_w st1 wi w' 0, rest, out_ok u [] d)
+          | Done (w', _) => (set_w st1 wi w' 0, rest, out_err u 1 (b_items b))
+          | Panic p => (set_w st1 wi w 1, rest, out_panic u p (b_items b))
+          end
+      end
+  | 55, s :: rest => (st, rest, enc_builder_probe u (nth_common (k_eb k) s))
+  | 56, s :: rest =>
+      let c := builder_build u (nth_common (k_eb k) s) in
+      let '(c', d) := common_clear c in
+      (set_k st (k_with_eb k (updN (k_eb k) s c')), rest, out_ok u [] d)
+  | 57, s :: rest =>
+      let '(d, _) := common_drop (nth_common (k_eb k) s) in
+      (set_k st (k_with_eb k (updN (k_eb k) s common_new)), rest, out_ok u [] d)
+  (* --- EntityBuilderClone / BuiltEntityClone --- *)
+  | 60, s :: t :: v :: rest =>
+      let '(c', d, _) := common_add u (nth_common (k_ebc k) s) t v in
+      (set_k st (k_with_ebc k (updN (k_ebc k) s c')), rest, out_ok u [] d)
+  | 61, s :: rest =>
+      let '(c', d) := common_clear (nth_common (k_ebc k) s) in
+      (set_k st (k_with_ebc k (updN (k_ebc k) s c')), rest, out_ok u [] d)
+  | 62, s :: s2 :: rest =>
+      (* slot s2 := clone of slot s; the builder previously in s2 is dropped *)
+      let '(cl, next', _) := common_clone (nth_common (k_ebc k) s) (k_next k) in
+      let '(d, _) := common_drop (nth_common (k_ebc k) s2) in
+      (set_k st (k_with_next (k_with_ebc k (updN (k_ebc k) s2 cl)) next'), rest, out_ok u [] d)
+  | 63, s :: ks :: rest =>
+      (* built slot ks := builder s .build(); builder slot s becomes a fresh builder *)
+      let built := clone_build u (nth_common (k_ebc k) s) in
+      let d := match nthN (k_built k) ks with Some (Some old) => fst (common_drop old) | _ => [] end in
+      (set_k st (k_with_built (k_with_ebc k (updN (k_ebc k) s common_new)) (updN (k_built k) ks (Some built))), rest, out_ok u [] d)
+  | 64, ks :: wi :: rest =>
+      match get_w st wi, nthN (k_built k) ks with
+      | Some w, Some (Some c) =>
+          let '(b, next') := built_clone_bundle c (k_next k) in
+          let st1 := set_k st (k_with_next k next') in
+          match w_spawn u w b with
+          | Done (w', h) => (add_handles (set_w st1 wi w' 0) [h], rest, out_ok u [enc_entity h] [])
+          | Panic p => (add_handles (set_w st1 wi w 1) [NOHANDLE], rest, out_panic u p (b_items b))
+          end
+      | _, _ => (add_handles st [NOHANDLE], rest, [8])
+      end
+  | 65, ks :: s :: rest =>
+      match nthN (k_built k) ks with
+      | Some (Some c) =>
+          let '(d, _) := common_drop (nth_common (k_ebc k) s) in
+          (set_k st (k_with_built (k_with_ebc k (updN (k_ebc k) s (clone_unbuild c))) (updN (k_built k) ks None)), rest, out_ok u [] d)
+      | _ => (st, rest, [8])
+      end
+  | 66, s :: rest => (st, rest, enc_builder_probe u (nth_common (k_ebc k) s))
+  | 67, ks :: ks2 :: rest =>
+      match nthN (k_built k) ks with
+      | Some (Some c) =>
+          let '(cl, next', _) := common_clone c (k_next k) in
+          let d := match nthN (k_built k) ks2 with Some (Some old) => fst (common_drop old) | _ => [] end in
+          (set_k st (k_with_next (k_with_built k (updN (k_built k) ks2 (Some cl))) next'), rest, out_ok u [] d)
+      | _ => (st, rest, [8])
+      end
+  | 68, ks :: rest =>
+      let d := match nthN (k_built k) ks with Some (Some old) => fst (common_drop old) | _ => [] end in
+      (set_k st (k_with_built k (updN (k_built k) ks None)), rest, out_ok u [] d)
+  (* --- ColumnBatchBuilder --- *)
+  | 70, s :: r1 =>
+      let '(ts, r2) := dec_types r1 in
+      match r2 with
+      | n :: rest =>
+          let d := match nthN (k_batch k) s with Some (Some old) => cbatch_values old | _ => [] end in
+          (set_k st (k_with_batch k (updN (k_batch k) s (Some (cbatch_new u ts n)))), rest, out_ok u [] d)
+      | [] => (st, [], [])
+      end
+  | 71, s :: t :: m :: r1 =>
+      let vs := takeN m r1 in
+      let rest := dropN m r1 in
+      match nthN (k_batch k) s with
+      | Some (Some b) =>
+          match cbatch_push b t vs with
+          | Some (b', rejected) =>
+              (set_k st (k_with_batch k (updN (k_batch k) s (Some b'))), rest, out_ok u [lenN rejected] [])
+          | None => (st, rest, [6])          (* writer::<T>() returned None: nothing was pushed *)
+          end
+      | _ => (st, rest, [8])
+      end
+  | 72, s :: wi :: rest =>
+      match get_w st wi, nthN (k_batch k) s with
+      | Some w, Some (Some b) =>
+          let st1 := set_k st (k_with_batch k (updN (k_batch k) s None)) in
+          if cbatch_complete b then
+            match w_spawn_column_batch w (cb_types b) (cbatch_rows b) with
+            | Done (w', hs) => (add_handles (set_w st1 wi w' 0) hs, rest, out_ok u (map enc_entity hs) [])
+            | Panic p => (add_handles (set_w st1 wi w 1) (repeatN NOHANDLE (cb_target b)), rest, out_panic u p (cbatch_values b))
+            end
+          else (add_handles st1 (repeatN NOHANDLE (cb_target b)), rest, out_err u 4 (cbatch_values b))
+      | _, _ => (st, rest, [8])
+      end
+  | 74, s :: rest =>
+      let d := match nthN (k_batch k) s with Some (Some old) => cbatch_values old | _ => [] end in
+      (set_k st (k_with_batch k (updN (k_batch k) s None)), rest, out_ok u [] d)
+  (* --- CommandBuffer --- *)
+  | 80, cb :: r1 =>
+      let '(b, rest) := dec_bundle u r1 in
+      match nthN (k_cmd k) cb with
+      | Some c => let '(c', _) := cm_record u c None b in
+                  (set_k st (k_with_cmd k (updN (k_cmd k) cb c')), rest, out_ok u [] [])
+      | None => (st, rest, [8])
+      end
+  | 81, cb :: r1 =>
+      let '(h, r2) := dec_href st r1 in
+      let '(b, rest) := dec_bundle u r2 in
+      match nthN (k_cmd k) cb with
+      | Some c => let '(c', _) := cm_record u c (Some h) b in
+                  (set_k st (k_with_cmd k (updN (k_cmd k) cb c')), rest, out_ok u [] [])
+      | None => (st, rest, [8])
+      end
+  | 82, cb :: r1 =>
+      let '(h, r2) := dec_href st r1 in
+      let '(ts, rest) := dec_types r2 in
+      match nthN (k_cmd k) cb with
+      | Some c => (set_k st (k_with_cmd k (updN (k_cmd k) cb (cm_push_cmd c (CRemove h (0 :: ts) ts)))), rest, out_ok u [] [])
+      | None => (st, rest, [8])
+      end
+  | 83, cb :: r1 =>
+      let '(h, rest) := dec_href st r1 in
+      match nthN (k_cmd k) cb with
+      | Some c => (set_k st (k_with_cmd k (updN (k_cmd k) cb (cm_push_cmd c (CDespawn h)))), rest, out_ok u [] [])
+      | None => (st, rest, [8])
+      end
+  | 84, cb :: wi :: rest =>
+      match get_w st wi, nthN (k_cmd k) cb with
+      | Some w, Some c =>
+          let n := spawn_count c in
+          let '(w', c', spawned, d, p) := cm_run_on u w c in
+          let st1 := set_k st (k_with_cmd k (updN (k_cmd k) cb c')) in
+          let hs := spawned ++ repeatN NOHANDLE (n - lenN spawned) in
+          match p with
+          | None => (add_handles (set_w st1 wi w' 0) hs, rest, out_ok u (map enc_entity spawned) d)
+          | Some pc => (add_handles (set_w st1 wi w' 1) hs, rest, out_panic u pc d)
+          end
+      | _, _ => (st, rest, [8])
+      end
+  | 85, cb :: rest =>
+      match nthN (k_cmd k) cb with
+      | Some c => let '(c', d) := cm_clear c in
+                  (set_k st (k_with_cmd k (updN (k_cmd k) cb c')), rest, out_ok u [] d)
+      | None => (st, rest, [8])
+      end
+  | 86, cb :: rest =>
+      match nthN (k_cmd k) cb with
+      | Some c => (set_k st (k_with_cmd k (updN (k_cmd k) cb cmdbuf_new)), rest, out_ok u [] (cm_live_values c))
+      | None => (st, rest, [8])
+      end
+  | _, _ => (st, [], [])
+  end.
+
+(* teardown of every container (end of script): everything still owned is dropped *)
+Definition conts_drop_all (k : conts) : list (tid * val) :=
+  concat (map (fun c => fst (common_drop c)) (k_eb k))
+  ++ concat (map (fun c => fst (common_drop c)) (k_ebc k))
+  ++ concat (map (fun o => match o with Some c => fst (common_drop c) | None => [] end) (k_built k))
+  ++ concat (map (fun o => match o with Some b => cbatch_values b | None => [] end) (k_batch k))
+  ++ concat (map cm_live_values (k_cmd k)).
+
 (* one operation; returns the new state, the rest of the script and the observation *)
 Definition exec_op (st : est) (opc : N) (l : list N) : est * list N * list N :=
   let u := e_u st in
+  if N.leb 50 opc && N.leb opc 86 then exec_cont st opc l else
+  if N.eqb opc 22 then
+    (* drop every container *)
+    (set_k st conts_new, l, out_ok u [] (conts_drop_all (e_k st))) else
   match l with
   | [] => (st, [], [])
   | wi :: args =>
@@ -455,7 +694,7 @@ Definition run_world (args : list N) : list N :=
   | n :: r =>
       let '(u, script) := dec_universe (length r) n r in
       let st := {| e_u := u; e_ws := [{| ws_world := world_new; ws_state := 0 |}; {| ws_world := world_new; ws_state := 0 |}];
-                   e_handles := []; e_prep := [] |} in
+                   e_handles := []; e_prep := []; e_k := conts_new |} in
       exec_script (length script) st script
   | [] => []
   end.
@@ -469,7 +708,7 @@ Definition run_twin (args : list N) : list N :=
       match rest with
       | la :: scripts =>
           let st := {| e_u := u; e_ws := [{| ws_world := world_new; ws_state := 0 |}; {| ws_world := world_new; ws_state := 0 |}];
-                       e_handles := []; e_prep := [] |} in
+                       e_handles := []; e_prep := []; e_k := conts_new |} in
           let a := takeN la scripts in
           let b := dropN la scripts in
           exec_script (length a) st a ++ exec_script (length b) st b
